@@ -3,6 +3,7 @@ package vnet
 import (
 	"net"
 	"os"
+	"syscall"
 	"time"
 
 	reuse "github.com/libp2p/go-reuseport"
@@ -17,6 +18,7 @@ type dgram struct {
 type sock struct {
 	local, remote *net.UDPAddr // remote nil => listening socket
 	q             []dgram
+	icmpErrs      int // pending ECONNREFUSED reports (connected socket only)
 	closed        bool
 	deadline      time.Time
 	dh            *vsched.TimerHandle
@@ -46,6 +48,9 @@ func NewFabric() *Fabric {
 type Peer struct {
 	Addr  *net.UDPAddr
 	Inbox [][]byte
+	// PortClosed: the peer's UDP port is closed. A datagram written to it is answered by ICMP "port unreachable", which
+	// Linux reports on the CONNECTED socket as ECONNREFUSED on the next read (once per datagram sent).
+	PortClosed bool
 }
 
 func (f *Fabric) Peer(addr string) *Peer {
@@ -84,10 +89,14 @@ func (timeoutErr) Temporary() bool { return true }
 
 func (s *sock) wait() error {
 	vsched.Cond("net.read", func() bool {
-		return len(s.q) > 0 || s.closed || (!s.deadline.IsZero() && !vsched.VNow().Before(s.deadline))
+		return len(s.q) > 0 || s.closed || s.icmpErrs > 0 || (!s.deadline.IsZero() && !vsched.VNow().Before(s.deadline))
 	})
 	if s.closed {
 		return net.ErrClosed
+	}
+	if s.icmpErrs > 0 {
+		s.icmpErrs--
+		return &net.OpError{Op: "read", Net: "udp", Err: os.NewSyscallError("read", syscall.ECONNREFUSED)}
 	}
 	if len(s.q) == 0 {
 		return &net.OpError{Op: "read", Net: "udp", Err: os.ErrDeadlineExceeded}
@@ -119,6 +128,10 @@ func (s *sock) Write(b []byte) (int, error) {
 	snt := Sent{To: s.remote.String(), B: append([]byte{}, b...), At: vsched.VNow()}
 	F.Wire = append(F.Wire, snt)
 	if p := F.Peers[s.remote.String()]; p != nil {
+		if p.PortClosed {
+			s.icmpErrs++
+			return len(b), nil
+		}
 		p.Inbox = append(p.Inbox, snt.B)
 	}
 	return len(b), nil
